@@ -26,7 +26,8 @@ THEOREMS = ["copy_reads_equal", "copy_root_reads_equal", "mv_reads_equal_plain",
             "mv_source_gone_partial", "mv_source_gone_spec", "mv_source_gone_current_false", "d4_counterexample",
             "mv_cross_eq_cp", "mv_cross_file_keeps_source", "list_exact", "d5_counterexample", "isCooler_total",
             "copy_overwrite_eq", "mv_reads_equal", "mv_through_source_counterexample", "copy_into_itself_refused",
-            "copyOp_not_into_itself", "uri_slash", "uri_slash_string", "list_exact_soft", "listing_exact_soft",
+            "copyOp_not_into_itself", "uri_slash", "uri_slash_string", "list_exact_soft", "listing_exact_soft", "step_sat", "run_sat", "history_invariants",
+            "stable_of_targets", "stable_history", "list_exact_soft_history", "depth_exceeded_witness",
             "create_append_frame", "create_root_append_frame", "create_w_replaces", "create_w_eq", "recreate_replaces",
             "step_wf", "run_wf", "step_lf", "run_lf", "list_exact_history"]
 CHUNK = 1
